@@ -40,6 +40,13 @@ def site_key(w, fn, pt):
         if s["k"] == "assign":
             p = w.definite_path(fn, s["place"])
             return "assign " + (M.path_str(p) if p else "?")
+    if pt[1] == len(blk["stmts"]) and blk["term"]["k"] == "assert":
+        n = 0
+        for bb in sorted(b.normal_blocks()):
+            if b.term(bb)["k"] == "assert" and b.term(bb)["msg"] == blk["term"]["msg"]:
+                n += 1
+                if bb == pt[0]:
+                    return "%s#%d" % (blk["term"]["msg"], n)
     return "point"
 
 
